@@ -39,8 +39,8 @@ CLAIMED = {
     "C14": dict(category="exploration", technique='contract-based deductive verification: sidecar contracts on the real functions, VCs generated from /repo source by pyvc (loop invariants, ghost lemmas, callee contracts), discharged by z3' + "; " + 'run-time contracts of the property evaluated on the real functions over enumerated / seeded bounded domains against oracles written from the property statement (bounded stand-in, never counted as proved)',
         text="Proved: _posterior_frequencies returns the empirical mean allele counts / frequencies / occurrence over all retained steps of all chains; posterior_as_array places each observed probability at the VCF position of its genotype. Bounded (seeded random traces incl. 70-SNV loci, every burn-in, random within-genotype order): posterior, mode, mode support, G-ordered array, chain incongruence of GenotypeMultiTrace / GenotypeAllelesMultiTrace and mset helpers equal a multiset oracle. Known finding F9 (MCI 1-vs-2 depends on chain order) is reported as KNOWN-FINDING.",
         design_ref="DESIGN.md 4, 5 (F9)", note=BASE_NOTE),
-    "C17": dict(category="other", technique='run-time contracts of the property evaluated on the real functions over enumerated / seeded bounded domains against oracles written from the property statement (bounded stand-in, never counted as proved)' + "; " + 'contract-based deductive verification: sidecar contracts on the real functions, VCs generated from /repo source by pyvc (loop invariants, ghost lemmas, callee contracts), discharged by z3' + ' for three building blocks of the gamete model only',
-        text="Proved: dosage_permutations == product of binomials C(parent copies, gamete copies) (no int64 overflow for <= 6 alleles x <= 12 copies); set_initial_dosage yields the first gamete of the enumeration (within the constraint, tau copies in total; raises exactly when tau does not fit); gamete_log_pmf without double reduction is the multivariate hypergeometric probability BPROD / C(ploidy, tau). The inheritance pmf, its normalisation and the validity equivalence are NOT within reach of a contract on one call (sums over enumerated gametes): bounded, exhaustive over parental genotypes on 3 alleles, ploidy 2/4(/6), balanced / unbalanced / clonal tau, known / unknown parents, lambda {0,.3}, error grids: exp(trio_log_pmf) equals a brute-force union-of-gametes model pointwise and sums to one; gamete_log_pmf sums to one; zero-error positivity iff trio_valid / duo_valid; PEDERR uses the right parent / tau column.",
+    "C17": dict(category="other", technique='run-time contracts of the property evaluated on the real functions over enumerated / seeded bounded domains against oracles written from the property statement (bounded stand-in, never counted as proved)' + "; " + 'contract-based deductive verification: sidecar contracts on the real functions, VCs generated from /repo source by pyvc (loop invariants, ghost lemmas, callee contracts), discharged by z3' + ' for the gamete probability and its building blocks only',
+        text="Proved: dosage_permutations == product of binomials C(parent copies, gamete copies) (no int64 overflow for <= 6 alleles x <= 12 copies); set_initial_dosage yields the first gamete of the enumeration (within the constraint, tau copies in total; raises exactly when tau does not fit); double_reduction_permutations; gamete_log_pmf == (1 - lambda) x multivariate hypergeometric BPROD / C(ploidy, tau) + lambda x (copies of the doubled allele / ploidy). The inheritance pmf, its normalisation and the validity equivalence are NOT within reach of a contract on one call (sums over enumerated gametes): bounded, exhaustive over parental genotypes on 3 alleles, ploidy 2/4(/6), balanced / unbalanced / clonal tau, known / unknown parents, lambda {0,.3}, error grids: exp(trio_log_pmf) equals a brute-force union-of-gametes model pointwise and sums to one; gamete_log_pmf sums to one; zero-error positivity iff trio_valid / duo_valid; PEDERR uses the right parent / tau column.",
         design_ref="DESIGN.md 4 (C17)", note=BASE_NOTE),
     "C18": dict(category="other", technique='run-time contracts of the property evaluated on the real functions over enumerated / seeded bounded domains against oracles written from the property statement (bounded stand-in, never counted as proved)' + "; " + 'contract-based deductive verification: sidecar contracts on the real functions, VCs generated from /repo source by pyvc (loop invariants, ghost lemmas, callee contracts), discharged by z3' + ' for the way the sampler combines likelihood, assumed Markov-blanket prior and the shared cache',
         text="Proved (with the inheritance prior as an assumed abstract function): gibbs_probabilities returns exp(own-reads likelihood + Markov-blanket prior) normalised; metropolis_hastings_probabilities is a distribution; both restore the state; pair_allele_swap_step restores the genotypes on rejection; allele_step / sample_step / compound_step keep all genotypes valid. Bounded: 13 small pedigrees (founders, duo, trio, half-sibs, selfing, two generations, mixed ploidy, unbalanced and clonal gametes, two families) x seeded joint states x every (individual, allele copy): gibbs_probabilities == exact full conditional of prod L_i P(g_i|parents) (brute-force inheritance model); MH vector and parental allele exchange in detailed balance; reject restores the state.",
